@@ -122,7 +122,7 @@ func (c serviceCodec) decodeArguments(method Method, decoder *io.Decoder) (args 
 		decoder.Decode(&args, tag)
 		return args, decoder.Error
 	}
-	count := decoder.ReadInt()
+	count := decoder.ReadCount()
 	parameters := method.Parameters()
 	paramTypes := make([]reflect.Type, count)
 	if method.Func().Type().IsVariadic() {
